@@ -68,6 +68,8 @@ def generate(seed, tier, idx=0):
             al.insert(rng.randint(0, len(al)), ["obs", i, v, w])
     case = {"program": prog, "strategy": 3, "stats": stats,
             "probe": rng.random() < 0.5, "sized_model": rng.random() < 0.15}
+    if rng.random() < 0.2:
+        case["falsy_producer"] = True     # the data producer is an (empty) container
     if case["probe"] and rng.random() < 0.3:
         # a subscriber that changes the statistic from inside notify (batch monitor
         # resetting it, capacity guard registering a correction): what is published
